@@ -25,8 +25,15 @@ pub fn run(ctx: &mut Ctx) {
         let (mut cfg, files): (Cfg, Vec<F>) = gen_case(&mut rng, true);
         cfg.ver = (ci % 4) as usize;
         if ci % 7 != 6 { cfg.listfile = true; }
-        let opt = gen_opt(&mut rng, ci);
+        let mut opt = gen_opt(&mut rng, ci);
         ctx.rng = rng;
+        // fixed witness of finding D2 reached through rebuild (runs in every tier): a constant 70000-byte file in a
+        // 128 KiB sector, zlib in the source (readable, ~690:1), recompressed with bzip2 (~1489:1) into the target
+        let (cfg, files) = if ci == 0 {
+            opt = Opt { target: Some(3), preserve: true, skip_enc: false, skip_sig: true, verify: false, comp: Some(0x10), shift: None, list_only: false };
+            (Cfg { ver: 3, shift: 8, crc: true, attrs: 0, listfile: true, table_comp: false },
+             vec![F { name: "b.bin".into(), data: vec![0x5A; 70000], method: 0x02, enc: 0 }, F { name: "Data\\small.txt".into(), data: b"kept".to_vec(), method: 0x02, enc: 0 }])
+        } else { (cfg, files) };
         let src = dir.path().join(format!("s{ci}.mpq"));
         let dst = dir.path().join(format!("t{ci}.mpq"));
         let desc = format!("source V{} shift={} crc={} attrs={} listfile={} tablecomp={} files=[{}] opts={:?}", cfg.ver + 1, cfg.shift, cfg.crc, cfg.attrs, cfg.listfile, cfg.table_comp,
@@ -84,12 +91,19 @@ pub fn run(ctx: &mut Ctx) {
                 if opt.list_only { ctx.out.oracle(!dst.exists(), "list-only-writes-target", &desc); continue; }
                 let mut t = match Archive::open(&dst) { Ok(t) => t, Err(e) => { ctx.out.oracle(false, "target-does-not-open", &format!("{e} :: {desc}")); continue; } };
                 let mut bad = false;
+                // files the target holds but the reader's ratio heuristics refuse (finding D2 reached through rebuild)
+                let mut ratio_rejected: Vec<String> = vec![];
                 for (n, _, readable) in want.iter().map(|x| (&x.0, x.1, x.2)) {
                     if !readable { continue; }
                     if is_special(n) && n != "(listfile)" { continue; }
                     match t.read_file(n) {
                         Ok(d) => if n != "(listfile)" && Some(&d) != truth.get(n) { bad = true; ctx.out.oracle(false, "rebuilt-content-differs", &format!("{n}: {} bytes vs {} :: {desc}", d.len(), truth[n].len())); },
-                        Err(e) => { bad = true; ctx.out.oracle(false, "file-lost-in-rebuild", &format!("{n}: {e} :: {desc}")); }
+                        Err(e) => {
+                            bad = true;
+                            let bomb = matches!(e, wow_mpq::Error::CompressionBomb { .. });
+                            if bomb { ratio_rejected.push(n.clone()); }
+                            ctx.out.oracle(false, if bomb { "rebuilt-file-rejected-by-ratio-limit" } else { "file-lost-in-rebuild" }, &format!("{n}: {e} :: {desc}"));
+                        }
                     }
                 }
                 // the result must list what it holds: every selected name appears in its listing
@@ -111,7 +125,11 @@ pub fn run(ctx: &mut Ctx) {
                 match compare_archives(&src, &dst, true, true, false, false, None) {
                     Ok(c) => { if let Some(f) = &c.files {
                         let missing: Vec<&String> = f.source_only.iter().filter(|n| !listing.iter().any(|(m, fl, ok)| m == *n && (excluded(m, *fl) || !*ok || is_special(m)))).collect();
-                        if !f.content_differences.is_empty() { bad = true; ctx.out.oracle(false, "compare-reports-content-difference", &format!("{:?} :: {desc}", f.content_differences)); }
+                        if !f.content_differences.is_empty() {
+                            bad = true;
+                            let only_ratio = f.content_differences.iter().all(|n| ratio_rejected.iter().any(|r| r == n));
+                            ctx.out.oracle(false, if only_ratio { "compare-difference-on-ratio-rejected-file" } else { "compare-reports-content-difference" }, &format!("{:?} :: {desc}", f.content_differences));
+                        }
                         if !missing.is_empty() { bad = true; ctx.out.oracle(false, "compare-reports-missing-files", &format!("{:?} :: {desc}", missing)); }
                     } }
                     Err(e) => { bad = true; ctx.out.oracle(false, "compare-fails", &format!("{e} :: {desc}")); }
